@@ -20,7 +20,7 @@ Inductive dclass :=
 | XNotFoundInNamespace | XNotFoundInType | XUndefinedType | XUnmodelled.
 
 Record bstate := { bs_blocks : list block; bs_locals : list tkind; bs_nparams : nat; bs_diags : list dclass;
-                   bs_exempt : list nat (* not part of the Rust state: locals declared by `let x: T` without initialiser *) }.
+                   bs_exempt : list nat (* not part of the Rust state: locals declared by `let x: T` without initialiser, or directly in a switch clause *) }.
 Definition bstate0 := {| bs_blocks := [block0]; bs_locals := []; bs_nparams := 0; bs_diags := []; bs_exempt := [] |}.
 
 Inductive out (A : Type) := V (a : A) | F | P (site : string).
@@ -661,6 +661,11 @@ Definition mark_exempt (l : nat) : M unit :=
   fun s => (V tt, {| bs_blocks := bs_blocks s; bs_locals := bs_locals s; bs_nparams := bs_nparams s; bs_diags := bs_diags s;
                      bs_exempt := l :: bs_exempt s |}).
 
+(* variables declared directly in a switch clause: a jump to a later clause bypasses the declaration, and reading the variable
+   there is the program's own undefinedness (ECMAScript: a ReferenceError), like reading a `let x: T` never assigned *)
+Definition exempt_new (env env' : lenv) : M unit :=
+  fold_right (fun x acc => let! _ := mark_exempt (fst (snd x)) in acc) (ret tt) (firstn (List.length env' - List.length env) env').
+
 Fixpoint walk_decls (E : cenv) (k : decl_kind) (env : lenv) (vars : list (string * option (list string) * option expr)) : M sres :=
   match vars with
   | [] => ret (true, env)
@@ -761,6 +766,7 @@ Fixpoint walk_stmt (E : cenv) (env : lenv) (brk : option nat) (s : stmt) {struct
                                                match l with
                                                | [] => ret (true, env)
                                                | x :: r => let! a := walk_stmt E env (Some exit_ref) x in
+                                                           let! _ := exempt_new env (snd a) in
                                                            let! b := gon (snd a) r in ret (fst a && fst b, snd b)
                                                end) env body in
                                 if fst res then let! lbl := mark_branch_point in ret (snd res, [lbl]) else ret (snd res, [])
@@ -774,6 +780,7 @@ Fixpoint walk_stmt (E : cenv) (env : lenv) (brk : option nat) (s : stmt) {struct
                                   match l with
                                   | [] => ret (true, env)
                                   | x :: r => let! a := walk_stmt E env (Some exit_ref) x in
+                                              let! _ := exempt_new env (snd a) in
                                               let! b := gon (snd a) r in ret (fst a && fst b, snd b)
                                   end) (fst d) nodes in
                    let! bl := (if fst res then let! lbl := mark_branch_point in ret [lbl] else ret []) in
